@@ -3,6 +3,7 @@
 //! (a) exhibits a concrete failing input for an obligation the verifier failed to discharge, and
 //! (b) checks, on every run, the stated assumptions about external code (logos) on enumerated inputs.
 mod lexer;
+mod roles;
 mod front;
 mod numeric;
 mod json;
@@ -18,6 +19,8 @@ fn main() {
         | "front-witness" => front::witness(rest),
         | "front-replay" => front::replay(rest),
         | "front-a3" => front::assumption_a3(rest),
+        | "roles-witness" => roles::witness(rest),
+        | "roles-replay" => roles::replay(rest),
         | "numeric-witness" => numeric::witness(rest),
         | "numeric-replay" => numeric::replay(rest),
         | _ => {
